@@ -95,6 +95,11 @@ func (r *rec) publisher() {
 	evs := events(r.c.variant)
 	r.publish(r.ps, r.c.variant, evs)
 	r.returned = true
+	// the caller owns its slice again as soon as the call returns: reuse it (what was published
+	// are the values at the time of the call)
+	for i := range evs {
+		evs[i] += 100
+	}
 	// completion before return (Wait and Sync variants): every sender goroutine this call
 	// started has finished its hand-off or its timeout callback
 	r.pendingAtReturn = vrt.LiveGo()
